@@ -18,17 +18,22 @@ def to_generic(t: Any):
     from pyjelly.integrations.generic import generic_sink as gs
 
     k = t[0]
-    if k == "iri":
-        return gs.IRI(t[1])
-    if k == "bnode":
-        return gs.BlankNode(t[1])
-    if k == "lit":
-        return gs.Literal(t[1], t[2], t[3])
+    if k in ("iri", "bnode", "lit"):
+        o = gs.IRI(t[1]) if k == "iri" else gs.BlankNode(t[1]) if k == "bnode" else gs.Literal(t[1], t[2], t[3])
+        # an application's terms have a history: every other one has been a dict key / set member before (hashed),
+        # the rest are fresh - equality must not depend on that
+        _COUNTER[0] += 1
+        if _COUNTER[0] % 2:
+            hash(o)
+        return o
     if k == "triple":
         return gs.Triple(to_generic(t[1]), to_generic(t[2]), to_generic(t[3]))
     if k == "default":
         return gs.DefaultGraph
     raise ValueError(t)
+
+
+_COUNTER = [0, 0]
 
 
 def stmt_to_generic(st: tuple):
@@ -88,6 +93,11 @@ def to_rdflib(t: Any):
     if k == "lit":
         return rdflib.Literal(t[1], lang=t[2], datatype=rdflib.URIRef(t[3]) if t[3] else None)
     if k == "default":
+        # every third default-graph marker is an equal COPY of rdflib's constant (what unpickling, deepcopy or
+        # URIRef("urn:x-rdflib:default") written by hand gives), not the constant itself
+        _COUNTER[1] += 1
+        if _COUNTER[1] % 3 == 0:
+            return rdflib.URIRef(str(DATASET_DEFAULT_GRAPH_ID))
         return DATASET_DEFAULT_GRAPH_ID
     raise ValueError(f"not an RDF 1.1 term for rdflib: {t!r}")
 
